@@ -137,6 +137,18 @@ class StaleIndex:
                         if (i["k"] == "Call" and i.get("short") == "GetBlockID") or \
                                 (i["k"] == "Member" and i.get("name") == "index" and i.get("owner") == "nifly::NiRef"):
                             ids.add(v["id"])
+        # type-table indices go stale too: deleting the last block of a type erases its name and shifts higher type ids
+        for n in walk(fn.get("body") or {}):
+            if n["k"] == "Binary" and n["op"] in ("==", "!="):
+                for a, b in ((n["l"], n["r"]), (n["r"], n["l"])):
+                    a, b = _peel(a), _peel(b)
+                    if is_node(a) and a["k"] == "Ref" and a.get("id") in ints and is_node(b) and b["k"] == "Subscript" and \
+                            _roots_at(b["base"], ("blockTypeIndices",)):
+                        ids.add(a["id"])
+            if n["k"] == "Subscript" and _roots_at(n["base"], ("blockTypes",)):
+                i = _peel(n["idx"])
+                if is_node(i) and i["k"] == "Ref" and i.get("id") in ints:
+                    ids.add(i["id"])
         changed = True
         while changed:
             changed = False
@@ -218,6 +230,24 @@ class StaleIndex:
                             s.adjusting.add(id(x))
         s.run()
         return uses[0], findings
+
+
+def _roots_at(e, names):
+    while is_node(e):
+        k = e["k"]
+        if k == "Member":
+            if e.get("name") in names and e.get("owner") == HDR:
+                return True
+            e = e.get("base")
+        elif k == "Unary" and e["op"] == "*":
+            e = e["e"]
+        elif k == "Cast":
+            e = e["e"]
+        elif k == "OpCall" and e.get("args"):
+            e = e["args"][0]
+        else:
+            return False
+    return False
 
 
 def _roots_at_table(e):
